@@ -11,14 +11,14 @@ import (
 // What Start does, minus provider selection and the signal handler:
 // start the given provider, announce, and set the report callback.
 func (m *MdnsManager) VerifStartWithProvider(provider api.MdnsProviderInterface, cb api.MdnsReportInterface) error {
+	m.report = cb
+
 	m.setProvider(provider)
 	_ = provider.Start(true, m.processMdnsEntry)
 
 	if err := m.AnnounceMdnsEntry(); err != nil {
 		return err
 	}
-
-	m.report = cb
 
 	return nil
 }
